@@ -280,7 +280,7 @@ class Executor(StmtMixin, ExprMixin, CallMixin, LibMixin):
                 base = f"{c.name}:{ob.kind}@L{ob.line}"
                 counts[base] = counts.get(base, 0) + 1
                 ob.name = f"{base}#{counts[base]}"
-            ob.hyps = ob.hyps + self._cls_axioms_for(ob)
+            ob.hyps = ob.hyps + self._cls_axioms_for(ob) + self._str_axioms()
             ob.unit = c
         info = {
             "function": c.target,
@@ -302,6 +302,13 @@ class Executor(StmtMixin, ExprMixin, CallMixin, LibMixin):
         out = dict(args)
         out["$post"] = {n: p.env.get(n) for n in args}
         return out
+
+    def _str_axioms(self):
+        """different string literals are different strings"""
+        lits = sorted(self.str_consts)
+        if len(lits) < 2:
+            return []
+        return [z3.Distinct(*[sv.const_str(x).e for x in lits])]
 
     def _cls_axioms_for(self, ob):
         class _P:
